@@ -60,7 +60,12 @@ impl GlideProcessor {
 
         self.cached_t = t;
 
-        let f0 = (1.0_f32 / t).max(self.min_fc).min(self.max_fc);
+        // a time of zero, of either sign, switches the glide off (1.0 / -0.0 is -inf, which would clamp to the slowest glide)
+        let f0 = if t == 0.0_f32 {
+            self.max_fc
+        } else {
+            (1.0_f32 / t).max(self.min_fc).min(self.max_fc)
+        };
         self.lpf.update_coefficients(coeffs(self.fs, f0.hz()))
     }
 
